@@ -22,7 +22,7 @@ RULE = (
     "non-trivial = tree of depth >= 2 or with a default/anonymous/hidden node, and a line with >= 1 token; distinct by "
     "(tree shape, line shape)."
 )
-BOUND = {"quick": "400 random trees x ~35 lines", "thorough": "24000 random trees x ~35 lines + all 2400 small trees of 1-3 top-level commands over 7 kinds"}
+BOUND = {"quick": "400 random trees x ~35 lines", "thorough": "96000 random trees x ~35 lines + all 2400 small trees of 1-3 top-level commands over 7 kinds"}
 ASSUMPTIONS = [
     "default and anonymous commands are leaves in generated trees (recursion into the default of a default is not stated)",
     "an empty string is not generated as a leading token (whether '' names no command is not stated)",
@@ -266,7 +266,7 @@ def small_trees():
 def plan(tier, seed):
     if tier == "quick":
         return [{"part": "random", "n": 100} for _ in range(4)] + [{"part": "small", "slice": [0, 8]}]
-    return [{"part": "random", "n": 2000} for _ in range(12)] + [{"part": "small", "slice": [i, 4]} for i in range(4)]
+    return [{"part": "random", "n": 8000} for _ in range(12)] + [{"part": "small", "slice": [i, 4]} for i in range(4)]
 
 
 def run(sh, spec):
